@@ -98,11 +98,21 @@ def do_line(c):
 
 def do_writer(c):
     row = [S(x) for x in c["row"]]
-    s = io.StringIO()
-    csv.writer(s).writerow(row)
-    v = s.getvalue()
-    assert v.endswith("\r\n")
-    return {"text": C(v[:-2])}
+    flags = c.get("flags")
+    if flags is None:
+        s = io.StringIO()
+        csv.writer(s).writerow(row)
+        v = s.getvalue()
+        assert v.endswith("\r\n")
+        return {"text": C(v[:-2])}
+    # per-field quoting choices have no csv.writer counterpart unless every field is quoted
+    out = {"text": None}
+    if all(flags):
+        for name, mode in (("all", csv.QUOTE_ALL), ("nonnumeric", csv.QUOTE_NONNUMERIC)):
+            s = io.StringIO()
+            csv.writer(s, quoting=mode).writerow(row)
+            out[name] = C(s.getvalue()[:-2])
+    return out
 
 
 class Logger:
